@@ -191,11 +191,15 @@ def pytorch_stft_frame_computer(
         return sig.new_empty((0, num_filts + int(include_energy)))
     total_len = (num_frames - 1) * frame_shift - pad_left + frame_length
     pad_right = max(0, total_len - sig_len)
-    if pad_left or pad_right:
+    if pad_left > 0 or pad_right:
         # symmetric padding
         sig = torch.cat(
-            [sig[:pad_left].flip(0), sig, sig[sig_len - pad_right :].flip(0)]
+            [sig[: max(0, pad_left)].flip(0), sig, sig[sig_len - pad_right :].flip(0)]
         )
+    if pad_left < 0:
+        # kaldi_shift with a frame shift exceeding the frame length: the first frame
+        # starts after the beginning of the signal
+        sig = sig[-pad_left:]
     # as_strided works on the underlying storage, so the signal must be densely packed
     sig = sig.contiguous().as_strided((num_frames, frame_length), (frame_shift, 1))
     y: List[torch.Tensor] = []
